@@ -41,6 +41,7 @@ Rewrite rules (closed list, every application logged with source line):
   N4  `E.map_or(LIT, |p| B)` -> `(match E { Some(p) => B, None => LIT })` (definition of Option::map_or)
   N5  `E.map(|p| B).unwrap_or(LIT)` -> `(match E { Some(p) => B, None => LIT })`
   N7  `E.is_some_and(|p| B)` / `E.is_none_or(|p| B)` -> `match` (definitions)
+  N9  `for (i, x) in E.into_iter().enumerate() {B}` -> counter + plain `for`
   N8  `E.map(|p| B)` on an Option -> `match`
   N6  iterator chains `X.iter().position(|p| B)`, `X.iter().any(|p| B)` and `X.iter().filter(|p| F).map(|q| E).collect()` ->
       explicit `for` loops (definitions of the adapters for side-effect-free closures)
@@ -913,6 +914,43 @@ def rule_N8(src, lo, hi, enabled):
     return out
 
 
+def rule_N9(src, lo, hi, enabled):
+    """for (I, X) in E.into_iter().enumerate() { B }  ->  { let mut I: usize = 0; for X in E { B I += 1; } }
+    (definition of Iterator::enumerate; B must not contain `continue`)"""
+    out = []
+    if "N9" not in enabled:
+        return out
+    toks = code_toks(tokenize(src[lo:hi], lo))
+    n = len(toks)
+    for i, t in enumerate(toks):
+        if t.kind == "ident" and t.text == "for" and i + 6 < n and toks[i + 1].text == "(" and toks[i + 3].text == "," and toks[i + 5].text == ")" \
+                and toks[i + 6].text == "in":
+            iv, xv = toks[i + 2].text, toks[i + 4].text
+            # find body `{` and check the iterable ends with .into_iter().enumerate()
+            j = i + 7
+            d = 0
+            while j < n:
+                x = toks[j].text
+                if x in ("(", "["):
+                    d += 1
+                elif x in (")", "]"):
+                    d -= 1
+                elif x == "{" and d == 0:
+                    break
+                j += 1
+            tail = [x.text for x in toks[j - 8:j]]
+            if tail != [".", "into_iter", "(", ")", ".", "enumerate", "(", ")"]:
+                continue
+            bc = match_close(toks, j)
+            body_txt = src[toks[j].end:toks[bc].start]
+            if re.search(r"\bcontinue\b", body_txt):
+                raise VxError("N9: enumerate loop body contains `continue`")
+            expr = src[toks[i + 7].start:toks[j - 8].start].strip()
+            out.append(("N9", toks[i].start, toks[j].start, "{ let mut %s: usize = 0; for %s in %s " % (iv, xv, expr)))
+            out.append(("N9", toks[bc].start, toks[bc].end, "%s += 1; } }" % iv))
+    return out
+
+
 def rule_A(src, lo, hi, keep_re):
     """Arm focus on the outermost `match` of the function body whose arms are event variants:
     every arm whose pattern does not match keep_re gets the body `{ return vx_other_arm(self) }`."""
@@ -1121,7 +1159,7 @@ def loop_headers(body):
 # --------------------------------------------------------------------------------------
 # vspec processing
 # --------------------------------------------------------------------------------------
-ALL_RULES = ["D1", "D2", "D3", "D5", "D6", "R1", "N1", "N2", "N3", "N4", "N5", "N6", "N7", "N8"]
+ALL_RULES = ["D1", "D2", "D3", "D5", "D6", "R1", "N1", "N2", "N3", "N4", "N5", "N6", "N7", "N8", "N9"]
 KV_RE = re.compile(r'(\w+)=("([^"]*)"|\S+)')
 
 
@@ -1386,6 +1424,7 @@ class Gen:
         edits += rule_N5(src, lo, hi, enabled)
         edits += rule_N7(src, lo, hi, enabled)
         edits += rule_N8(src, lo, hi, enabled)
+        edits += rule_N9(src, lo, hi, enabled)
         for rule, s, e, repl in edits:
             if rule not in ("D1", "D2"):
                 pass
